@@ -3,6 +3,7 @@
 package main
 
 import (
+	"bytes"
 	"fmt"
 	"math"
 	"sort"
@@ -433,17 +434,50 @@ func c20EmitRead(sf []string, c *pgCompiled, in []byte, disallow, byName bool) {
 	if len(in) > 4096 {
 		return
 	}
-	var g interface{}
-	var rerr error
-	left := 0
+	var g, g2 interface{}
+	var rerr, rerr2 error
+	left, left2 := 0, 0
+	buflen1, buflen2, same1, same2 := 0, 0, false, false
+	ok2 := false
 	okr, _ := noPanic(func() {
-		p := binary.NewBinaryProtol(append([]byte{}, in...))
+		mine := append([]byte{}, in...)
+		p := binary.NewBinaryProtol(mine)
 		g, rerr = p.ReadAnyWithDesc(c.Dyn, false, true, disallow, byName)
 		left = p.Left()
+		// the protocol's buffer is the caller's buffer again after the call, error or not
+		buflen1, same1 = len(p.RawBuf()), bytes.Equal(p.Buf, in)
+		// second step on the SAME protocol object: rewind, read leniently
+		ok2, _ = noPanic(func() {
+			p.Read = 0
+			g2, rerr2 = p.ReadAnyWithDesc(c.Dyn, false, true, false, byName)
+			left2 = p.Left()
+			buflen2, same2 = len(p.RawBuf()), bytes.Equal(p.Buf, in)
+		})
 		// readers are recycled: the next NewBinaryProtol / NewBinaryProtocolBuffer gets this object back from the pool
 		// and must start at position 0 of ITS buffer (strings were copied, []byte values alias our own copy of the input)
+		p.Buf = mine
 		binary.FreeBinaryProtocol(p)
 	})
+	if okr {
+		// 2014: schema.., byName, disallowUnknown of the first read, input, code of the first read, len(Buf) and Buf==input after it,
+		// code of the lenient re-read on the same object, [value], bytes left, len(Buf), Buf==input
+		f2 := append(append([]string{}, sf...), fb(byName), fb(disallow), fx(in), berr(rerr), fi(buflen1), fb(same1))
+		switch {
+		case !ok2:
+			f2 = append(f2, "n3", "n0", "n0", "n0")
+		case rerr2 != nil:
+			f2 = append(f2, "n1", "n0", fi(buflen2), fb(same2))
+		default:
+			if gf, ok := gvEmit(g2); !ok {
+				f2 = append(f2, "n4", "n0", "n0", "n0")
+			} else {
+				f2 = append(f2, "n0")
+				f2 = append(f2, gf...)
+				f2 = append(f2, fi(left2), fi(buflen2), fb(same2))
+			}
+		}
+		out.emit(2014, f2...)
+	}
 	fields := append(append([]string{}, sf...), fb(byName), fb(disallow), "n0", fx(in))
 	switch {
 	case !okr:
@@ -463,8 +497,9 @@ func c20EmitRead(sf []string, c *pgCompiled, in []byte, disallow, byName bool) {
 	out.emit(2010, fields...)
 }
 
-func c20UnknownField(r *rng, s *pgSchema) []byte {
-	root := s.msg(s.Root)
+func c20UnknownField(r *rng, s *pgSchema) []byte { return c20UnknownFieldOf(r, s.msg(s.Root)) }
+
+func c20UnknownFieldOf(r *rng, root *pgMsg) []byte {
 	num := uint64(0)
 	for try := 0; try < 50; try++ {
 		num = uint64(1 + r.intn(3000))
@@ -735,6 +770,28 @@ func genC20Any(r *rng, n int) {
 			}
 			c20EmitRead(sf, c, withU, false, byName)
 			c20EmitRead(sf, c, withU, true, byName)
+			// a failure INSIDE a nested message (unknown member under disallowUnknown / payload cut short), other fields after it
+			for _, fv := range v.Fields {
+				if fv.F.Kind != pgKMessage || fv.F.Label != pgSingular {
+					continue
+				}
+				sub, err := c.encodeRef(fv.V, fv.F.MsgName)
+				if err != nil {
+					continue
+				}
+				nested := append(append([]byte{}, sub...), c20UnknownFieldOf(rr, s.msg(fv.F.MsgName))...)
+				in := rw.AppendBytes(rw.AppendTag(nil, rw.Number(fv.F.Num), rw.BytesType), nested)
+				in = append(in, refb...)
+				c20EmitRead(sf, c, in, true, byName)
+				c20EmitRead(sf, c, in, false, byName)
+				if len(nested) > 1 {
+					// declared length one more than what the nested fields fill
+					in2 := rw.AppendVarint(rw.AppendTag(nil, rw.Number(fv.F.Num), rw.BytesType), uint64(len(sub)+1))
+					in2 = append(append(in2, sub...), 0x80)
+					c20EmitRead(sf, c, append(in2, refb...), rr.bool(), byName)
+				}
+				break
+			}
 			// truncation, corruption
 			if len(refb) > 0 {
 				c20EmitRead(sf, c, refb[:rr.intn(len(refb))], false, byName)
